@@ -19,7 +19,7 @@ MANIFEST = {
     'technique': 'path-based symbolic execution of the real Tcb MIR (rustc -Zunpretty=mir) with z3 bit-vectors; counterexamples replayed natively',
     'level_text': 'For each of 16 (situation, endpoint) pairs covering all nine TCP states and both initiations, reached through the real public API with '
                   'symbolic 32-bit ISNs and symbolic write sizes, one forged segment with symbolic seq/ack/window/flags/text length (0..=MSS) is executed '
-                  'symbolically through segment_arrives -> process_segment, then segments() and receive(): z3 decides on every feasible path that no '
+                  'symbolically through segment_arrives -> process_segment, then segments() and receive() (plus one unit each for CLOSED and LISTEN with all 64 flag combinations symbolic: no panic, reset fields per RFC 9293 3.10.7.1): z3 decides on every feasible path that no '
                   'panic/overflow/assert is reachable, that segments entirely outside the receive window (or without SYN/RST in SYN-SENT) change neither '
                   'state, sequence variables, queues nor delivered data, and that new data never exceeds SND.WND. A sample of symbolic traces is re-run '
                   'natively against the real Tcb and must print identical state digests (translator validation).',
